@@ -14,7 +14,7 @@ from vlib.monitor import Tol, fmt_exc, numerical_failure
 from vlib.ref import constraint_cov, pd_info
 
 PROPERTY = "C05"
-TIERS = {"quick": {"shards": 8, "budget_s": 40}, "thorough": {"shards": 16, "budget_s": 600}}
+TIERS = {"quick": {"shards": 8, "budget_s": 30}, "thorough": {"shards": 16, "budget_s": 600}}
 RULE = (
     "linear model family (poly0-4, trig basis, exp basis) as XYFit / IndexedFit / MultiFit of 2-3 members sharing linear parameters x "
     "parameter-independent sources (absolute / data-relative, simple with any correlation, matrix cov/cor) x constraints x fixed subset x "
